@@ -37,3 +37,31 @@ Definition drun (clear_first : bool) (s : dstate) (tr : list dstep) : dstate := 
    later block arrives *)
 Definition stuck (s : dstate) : bool :=
   match d_pc s with PWait => negb (d_trigger s) && (d_pending_sets s =? 0) && negb (d_queue s =? 0) | _ => false end.
+
+(* ---------- generations: one callback at a time across stop()/start() ----------
+   stop() does not join a dispatcher thread that is inside a callback (the callback may be the caller of disable()); start() creates
+   the thread of the next generation.  What matters: who is inside a callback (nobody, the thread of the current generation, a thread of
+   an older generation that was left behind) and what the thread of the current generation does.  `waits` (Gen/Dispatcher.v tells what
+   the source has): a new thread first joins the thread that is inside a callback. *)
+Inductive gcb := CbNone | CbCur | CbStale.
+Inductive gcur := CIdle | CWait | CInCb.
+Record gstate := { g_cb : gcb; g_cur : gcur; g_overlap : bool }.
+Definition g0 : gstate := {| g_cb := CbNone; g_cur := CIdle; g_overlap := false |}.
+Inductive gstep := GRestart | GCurrent | GStaleReturns.
+Definition gstep_fn (waits : bool) (s : gstate) (a : gstep) : gstate :=
+  match a with
+  | GRestart =>      (* stop(); start(): the thread of the current generation is joined unless a callback is running; a new one starts *)
+    match g_cb s with
+    | CbNone => {| g_cb := CbNone; g_cur := CIdle; g_overlap := g_overlap s |}
+    | _ => {| g_cb := CbStale; g_cur := if waits then CWait else CIdle; g_overlap := g_overlap s |}
+    end
+  | GCurrent =>      (* the thread of the current generation takes its next step *)
+    match g_cur s with
+    | CWait => match g_cb s with CbStale => s | _ => {| g_cb := g_cb s; g_cur := CIdle; g_overlap := g_overlap s |} end
+    | CIdle => {| g_cb := CbCur; g_cur := CInCb; g_overlap := g_overlap s || match g_cb s with CbStale => true | _ => false end |}    (* takes a block, calls the target *)
+    | CInCb => {| g_cb := CbNone; g_cur := CIdle; g_overlap := g_overlap s |}                                                          (* the callback returns *)
+    end
+  | GStaleReturns => (* the callback of the thread that was left behind returns; that thread ends *)
+    match g_cb s with CbStale => {| g_cb := CbNone; g_cur := g_cur s; g_overlap := g_overlap s |} | _ => s end
+  end.
+Definition grun (waits : bool) (s : gstate) (tr : list gstep) : gstate := fold_left (gstep_fn waits) tr s.
